@@ -140,7 +140,8 @@ def generate(ctx):
         # no typedef'd arrays: a function type created from such a parameter is named after the first spelling seen
         removed, kept = set(), []
         for td in dctx["typedefs"]:
-            if (td["t"]["decl"]["arrays"] and not td["t"]["decl"]["group"]) or (set(G.tokens(td["t"])) & removed):
+            inner = G._innermost(td["t"]["decl"])
+            if (inner["arrays"] and not inner["funcs"]) or (set(G.tokens(td["t"])) & removed):
                 removed.add(td["name"])
             else:
                 kept.append(td)
@@ -318,7 +319,7 @@ def evaluate(ctx, cases):
     for k, flags in bad:
         i, side = owner[k]
         ctx.mismatch(cases[i], "%s FFI, type %r: %s; model: %s" % (
-            side, cases[i]["s"], "cname differs" if flags & 1 else "getctype differs", detail.get(k, "?")[:800]),
+            side, cases[i]["s"], "cname differs" if flags & 1 else "getctype differs", detail.get(k, "?")[:200]) + " || lit: " + coq_lits[k][:600],
             "C08.Model.cname/getctype vs ffi.getctype")
     for c in cases[:3]:
         ctx.sample(dict(s=c["s"], xs=[x["text"] for x in c["xs"]]))
